@@ -336,15 +336,18 @@ impl<'a> Reader for ProtobufReader<'a> {
         }
 
         // This way is clearer, that the first branch is for unsigned and the second branch for
-        // signed types, while the inner branches determine 32- or 64-bitness
+        // signed types, while the inner branches determine 32- or 64-bitness. MIN and MAX bound
+        // the extension root only: the value of an extensible INTEGER can be anything its 64-bit
+        // type holds (declared as uint64 / sint64 in the generated schema)
         #[allow(clippy::collapsible_if)]
         if const_unwrap_or!(C::MIN, 0) >= 0 {
-            if const_unwrap_or!(C::MAX, i64::MAX) <= i64::from(u32::MAX) {
+            if !C::EXTENSIBLE && const_unwrap_or!(C::MAX, i64::MAX) <= i64::from(u32::MAX) {
                 reader.read_uint32().map(|v| T::from_i64(v as i64))
             } else {
                 reader.read_uint64().map(|v| T::from_i64(v as i64))
             }
-        } else if const_unwrap_or!(C::MIN, i64::MIN) >= i64::from(i32::MIN)
+        } else if !C::EXTENSIBLE
+            && const_unwrap_or!(C::MIN, i64::MIN) >= i64::from(i32::MIN)
             && const_unwrap_or!(C::MAX, i64::MAX) <= i64::from(i32::MAX)
         {
             reader.read_sint32().map(|v| T::from_i64(v as i64))
